@@ -228,6 +228,10 @@ func (e *Engine) parseFacts(pfx, s, base, bits string, signed bool) {
 	if !okb || !okn {
 		return
 	}
+	if hk := fmt.Sprintf("parse|%s|%d|%d", pfx, b, n); !e.hookKeys[hk] {
+		e.hookKeys[hk] = true
+		e.litHooks = append(e.litHooks, func() { e.parseFacts(pfx, s, base, bits, signed) })
+	}
 	for i := 0; i < len(e.litOrder); i++ {
 		lit := e.litOrder[i]
 		key := fmt.Sprintf("%s|%d|%d|%s", pfx, b, n, lit)
